@@ -149,7 +149,8 @@ def measured_circuit(cirq, rng):
                 cond = cirq.SympyCondition(sympy.Eq(sympy.Symbol(key), rng.randrange(2 ** keys[key])))
             else:
                 cond = cirq.KeyCondition(cirq.MeasurementKey(key), index)
-            ops.append(base.with_classical_controls(cond))
+            # (the same control spelled as an `If` operation)
+            ops.append(cirq.If(cond, base) if hasattr(cirq, 'If') and rng.random() < 0.35 else base.with_classical_controls(cond))
         else:
             ops.append(cirq.reset(rng.choice(qs)))
     if not keys:
@@ -271,6 +272,15 @@ def run(ctx: common.Run):
         (cirq.Circuit(cirq.X(q3[0]), cirq.measure(q3[0], q3[1], key='k 1'), cirq.X(q3[2]).with_classical_controls('k 1'),
                       cirq.measure(q3[2], key='out')), list(q3), '3.0'),
     ]
+    # a key compared with a constant, for every register width, constant and measured value (H on every measured qubit: all values occur
+    # in one distribution); the register is little-endian while the key's integer is big-endian over its qubits
+    q4 = cirq.LineQubit.range(4)
+    combos = [(w, c) for w in (2, 3) for c in range(2 ** w)]
+    if ctx.tier == 'quick':
+        combos = [(w, c) for (w, c) in combos if (w + c + ctx.seed) % 2 == 0 or c in (1, 2)]
+    for w, c in combos:
+        corpus_m.append((cirq.Circuit(cirq.H.on_each(*q4[:w]), cirq.measure(*q4[:w], key='a'), cirq.X(q4[3]).with_classical_controls(sympy.Eq(sympy.Symbol('a'), c)), cirq.measure(q4[3], key='out')),
+                         list(q4[:w]) + [q4[3]], '2.0' if c % 2 else '3.0'))
     for i in range(n + len(corpus_m)):
         if i < len(corpus_m):
             circuit, order, version = corpus_m[i]
